@@ -256,7 +256,15 @@ class SArr:
             yield self[k]
 
     def tolist(self):
-        raise Unsupported("tolist() of a symbolic array")
+        """nested lists of symbolic scalars (the analog of numpy's nested lists of Python scalars)"""
+        def rec(a):
+            if not isinstance(a, np.ndarray):
+                return wrap(a)
+            if a.ndim == 0:
+                return wrap(a.item())
+            return [rec(a[k]) for k in range(a.shape[0])]
+
+        return rec(self.c)
 
     def __array__(self, dtype=None, copy=None):
         """The array reaches compiled numpy code that the model does not cover: REALISE it, i.e.
@@ -566,6 +574,13 @@ def _concatenate(arrs, axis=0, **kw):
 def _stack(arrs, axis=0, **kw):
     arrs = [_as_sarr(x) for x in arrs]
     return SArr(np.stack([x.c for x in arrs], axis=axis), arrs[0].dtype)
+
+
+@implements(np.column_stack)
+def _column_stack(arrs, **kw):
+    arrs = [_as_sarr(x) for x in arrs]
+    dt = np.result_type(*[x.dtype for x in arrs])
+    return SArr(np.column_stack([x.c for x in arrs]), dt)
 
 
 @implements(np.expand_dims)
